@@ -47,11 +47,13 @@ def mutRes (base : PyVal) (r : RowBytes.Bytes) : List PyVal → Option (List PyV
       some ((if x = base then .str "same" else x) :: out)
     | _, _ => none
 
-/-- the calls of an `objseq` case: `["a", ts]` = `as_bytes` with that clock, `["n", ts]` = `nbytes()` -/
+/-- the calls of an `objseq` case: `["a", ts]` = `as_bytes` with that clock, `["n", ts]` = `nbytes()`, `["e", items]` = the
+lists / maps inside the row were edited in place, the object now holds `items` -/
 def objOps : List PyVal → Option (List RowObject.Op)
   | [] => some []
   | .list [.str "a", .int ts] :: rest => if ts < 0 then none else (objOps rest).map (RowObject.Op.asBytes ts.toNat :: ·)
   | .list [.str "n", .int ts] :: rest => if ts < 0 then none else (objOps rest).map (RowObject.Op.nbytes ts.toNat :: ·)
+  | .list [.str "e", .list items] :: rest => (objOps rest).map (RowObject.Op.edit items :: ·)
   | _ => none
 
 def objRes : RowObject.Res → PyVal
@@ -60,6 +62,7 @@ def objRes : RowObject.Res → PyVal
   | .size (.ok (some n)) => .list [.str "ok", .int n]
   | .size (.ok none) => .list [.str "ok", .none]
   | .size (.error e) => encErr e
+  | .edited => .list [.str "edited"]
 
 /-- Run-length compression of a list of outcomes. -/
 def runs : List PyVal → List (PyVal × Nat)
@@ -141,7 +144,7 @@ def handle (op : String) (args : List PyVal) : Option (List PyVal) :=
   -- `Row.as_bytes` / `Row.nbytes` (theorem `object_history_irrelevant`)
   | "objseq", [.bool d, .list row, .list ops] =>
     match objOps ops with
-    | some os => some [.list ((RowObject.run d row none os).map objRes)]
+    | some os => some [.list ((RowObject.run d (RowObject.fresh row) os).map objRes)]
     | none => none
   -- `cls(data)`: the translated `Row.__new__` on a tuple (`["t", items]`) or a dictionary (`["d", exact, {…}]`);
   -- `fields` = `cls._fields` or None
